@@ -4,7 +4,8 @@
    without the insertion algorithm, against the implementation's root hash, bit for bit) and the
    state correspondence; the theorems below cover the parts about publish's control flow. *)
 From Coq Require Import List Bool NArith.
-From Akd Require Import InsertRefine SpecFacts Spec Insert ElemSet NodeLabel Tree.
+From Akd Require Import InsertRefine SpecFacts Spec Insert ElemSet NodeLabel Tree Hashing.
+From Akd Require DirRefine NodeLabelFacts.
 From Akd Require Import NodeLabel Hashing Tree Insert Directory DirFacts.
 Import ListNotations.
 Open Scope N_scope.
@@ -54,3 +55,33 @@ Print Assumptions C01_batch_step.
 (* both real configurations' empty labels satisfy the premise *)
 Example C01_empty_labels : canonical empty_label_whatsapp = false /\ canonical empty_label_experimental = false.
 Proof. split; vm_compute; reflexivity. Qed.
+
+(* the directory itself: under VRF outputs that are well-formed 256-bit labels and do not collide
+   (C18), after ANY sequence of publish requests - accepted, rejected or no-ops - the directory's
+   tree is the specification trie over its leaves and the epoch hash it serves is that trie's hash;
+   every accepted changing request adds exactly the elements derived from it, stamped with the
+   new epoch *)
+Theorem C01_directory_always_spec : forall cfg ck (vrf_label : bytes -> bool -> N -> option nlabel),
+  canonical (c_empty_label cfg) = false ->
+  (forall l f v nl, vrf_label l f v = Some nl -> NodeLabelFacts.WF nl /\ canonical nl = true /\ llen nl = 256) ->
+  (forall l f v l' f' v' nl, vrf_label l f v = Some nl -> vrf_label l' f' v' = Some nl -> l = l' /\ f = f' /\ v = v') ->
+  forall reqs,
+  let st := DirRefine.run_publishes cfg ck vrf_label dir_new reqs in
+  DirRefine.DirInv vrf_label st /\ d_tree st = spec_root (sleaves (d_tree st)) /\
+  epoch_hash cfg st = (d_epoch st, spec_root_hash cfg (sleaves (d_tree st))).
+Proof. exact DirRefine.directory_always_spec. Qed.
+Print Assumptions C01_directory_always_spec.
+
+Theorem C01_publish_step : forall cfg ck (vrf_label : bytes -> bool -> N -> option nlabel),
+  canonical (c_empty_label cfg) = false ->
+  (forall l f v nl, vrf_label l f v = Some nl -> NodeLabelFacts.WF nl /\ canonical nl = true /\ llen nl = 256) ->
+  (forall l f v l' f' v' nl, vrf_label l f v = Some nl -> vrf_label l' f' v' = Some nl -> l = l' /\ f = f' /\ v = v') ->
+  forall st upds st' e h,
+  DirRefine.DirInv vrf_label st -> publish cfg ck vrf_label st upds = (st', DOk (e, h)) ->
+  DirRefine.DirInv vrf_label st' /\ e = d_epoch st' /\ h = spec_root_hash cfg (sleaves (d_tree st')) /\
+  (st' = st \/ exists elems news,
+      derive_all cfg ck vrf_label st upds = Some (elems, news) /\ d_epoch st' = d_epoch st + 1 /\
+      d_states st' = d_states st ++ news /\
+      Permutation.Permutation (leaves (d_tree st')) (leaves (d_tree st) ++ map (lf_of (d_epoch st + 1)) elems)).
+Proof. exact DirRefine.publish_step. Qed.
+Print Assumptions C01_publish_step.
